@@ -1,5 +1,6 @@
 import ColoVerif.Model.NetAsm
 import ColoVerif.Model.Circuit
+import ColoVerif.Model.Legalize
 /-
 C17 — model of `NetModel::xTopology` / `NetModel::yTopology`
 (/repo/src/place_global/net_model.cpp): how the `NetModel` net list is built from a `Circuit`.
@@ -12,10 +13,15 @@ the offset `offset - 0.5f * placedWidth(cell)` (offset to the cell centre); then
 `addNet` is the model of `Model/NetAsm.lean` (`addNetWith`): it silently stores nothing for a
 net without movable pin or with a single stored pin.
 
-Floats are modelled over `Rat`: `(float)pos`, `(float)areaMin`, `offset - 0.5f * width` are exact
-as long as the integers are below 2^24 in magnitude (the generated domain; rounding of larger
-coordinates is not modelled).  `minPos = +inf`, `maxPos = -inf` (no fixed pin seen yet) is
-`none`; the two are always set together.  Net weights are the exact binary32 values
+Floats are modelled over `Rat`, and every int → float conversion and every float operation of
+these two functions is rounded with `Legalize.f32`, the binary32 round-to-nearest-even of
+`Model/Legalize.lean` (the same definition the C11 ordering keys use): `(float)pos`,
+`(float)areaMin`, and `offset - 0.5f * placedWidth` = `f32 (f32 offset − f32 (½ · f32 width))`
+(usual arithmetic conversions: both `int`s are converted to `float`, the product and the difference
+are rounded once each; x86-64/SSE, no FMA contraction).  The conversions are exact below 2^24 in
+magnitude (`Proofs/NetTopologyF32.lean`) and round above.  `int pos = x(cell) + offset` is an
+unbounded `Int` (overflow is C07's obligation).  `minPos = +inf`, `maxPos = -inf` (no fixed pin
+seen yet) is `none`; the two are always set together.  Net weights are the exact binary32 values
 `wMant * 2^wExp` of the shared `Circuit` record.  Core Lean only.
 -/
 namespace ColoVerif.NetTopology
@@ -47,16 +53,22 @@ def placedSize (a : Axis) (cl : Cell) : Int :=
   | .x => cl.placedWidth
   | .y => cl.placedHeight
 
-/-- `(float)areaMin` / `(float)areaMax` of `circuit.computePlacementArea()`. -/
+/-- `(float)v` for a C++ `int`: binary32 round-to-nearest-even. -/
+def toFloat (v : Int) : Rat := Legalize.f32 (v : Rat)
+
+/-- The integers binary32 represents exactly without further conditions: `|v| ≤ 2^24`. -/
+def SmallInt (v : Int) : Prop := -16777216 ≤ v ∧ v ≤ 16777216
+
+/-- `float areaMin = area.minX` / `float areaMax = area.maxX` of `circuit.computePlacementArea()`. -/
 def areaMin (a : Axis) (c : Circuit) : Rat :=
   match a with
-  | .x => (c.placementArea.minX : Rat)
-  | .y => (c.placementArea.minY : Rat)
+  | .x => toFloat c.placementArea.minX
+  | .y => toFloat c.placementArea.minY
 
 def areaMax (a : Axis) (c : Circuit) : Rat :=
   match a with
-  | .x => (c.placementArea.maxX : Rat)
-  | .y => (c.placementArea.maxY : Rat)
+  | .x => toFloat c.placementArea.maxX
+  | .y => toFloat c.placementArea.maxY
 
 /-- `minPos = std::min(minPos, v); maxPos = std::max(maxPos, v)` where `none` is the initial
 `(+inf, -inf)`. -/
@@ -74,11 +86,13 @@ structure PinAcc where
 /-- The pin pushed for a movable cell: `cells.push_back(cell);
 offsets.push_back(offset - 0.5f * placedWidth(cell))`. -/
 def movablePin (a : Axis) (c : Circuit) (p : ColoVerif.Pin) : NetAsm.Pin :=
-  ((p.cell : Int), ((pinOffset a (c.cell p.cell) p : Int) : Rat) - (1 / 2 : Rat) * ((placedSize a (c.cell p.cell) : Int) : Rat))
+  ((p.cell : Int),
+    Legalize.f32 (toFloat (pinOffset a (c.cell p.cell) p)
+      - Legalize.f32 ((1 / 2 : Rat) * toFloat (placedSize a (c.cell p.cell)))))
 
 /-- `(float)pos` with `int pos = circuit.x(cell) + offset`. -/
 def fixedPos (a : Axis) (c : Circuit) (p : ColoVerif.Pin) : Rat :=
-  ((cellPos a (c.cell p.cell) + pinOffset a (c.cell p.cell) p : Int) : Rat)
+  toFloat (cellPos a (c.cell p.cell) + pinOffset a (c.cell p.cell) p)
 
 /-- Body of `for (int j = 0; j < circuit.nbPinsNet(i); ++j)`. -/
 def pinStep (a : Axis) (c : Circuit) (acc : PinAcc) (p : ColoVerif.Pin) : PinAcc :=
